@@ -336,6 +336,9 @@ pub fn par_for(cfg: &Cfg, n: usize, f: impl Fn(usize, &mut Report) + Sync) -> Re
 /// A monitor that panics while examining a value konst returned (typically: formatting or comparing
 /// a `&str` that is not valid UTF-8) must not take the run down: the case is recorded as a failure.
 fn guarded(f: &(impl Fn(usize, &mut Report) + Sync), i: usize, r: &mut Report) {
+    if tracing() {
+        eprintln!("TRACE item={}", i);
+    }
     if catch(|| f(i, &mut *r)).is_err() {
         r.fail("C01:monitor-panicked-on-returned-value", "harness", format!("work item {}", i), "monitor code panicked while examining a returned value (see the preceding failure of this item, e.g. invalid UTF-8)".into(), "no panic".into());
     }
@@ -347,15 +350,44 @@ thread_local! {
     static IN_CATCH: std::cell::Cell<u32> = const { std::cell::Cell::new(0) };
 }
 
+static UB_CHECK_PANICS: std::sync::Mutex<Vec<String>> = std::sync::Mutex::new(Vec::new());
+pub static TRACE: std::sync::atomic::AtomicBool = std::sync::atomic::AtomicBool::new(false);
+
+pub fn tracing() -> bool {
+    TRACE.load(std::sync::atomic::Ordering::Relaxed)
+}
+
 /// Panics raised inside `catch` are observations and stay silent; any other panic is a harness
-/// bug and is printed.
+/// bug and is printed. Panics raised by std's `ub_checks` ("unsafe precondition(s) violated", only
+/// present in builds with debug assertions) are recorded: they are C01 events, whatever the
+/// functional comparison around them concludes.
 pub fn silence_panics() {
     let default = std::panic::take_hook();
     std::panic::set_hook(Box::new(move |info| {
+        let msg: String = if let Some(s) = info.payload().downcast_ref::<&str>() {
+            s.to_string()
+        } else if let Some(s) = info.payload().downcast_ref::<String>() {
+            s.clone()
+        } else {
+            String::new()
+        };
+        if msg.contains("unsafe precondition") {
+            let loc = info.location().map(|l| format!("{}:{}", l.file(), l.line())).unwrap_or_default();
+            if let Ok(mut g) = UB_CHECK_PANICS.lock() {
+                if g.len() < 50 {
+                    g.push(format!("{} @ {}", msg, loc));
+                }
+            }
+        }
         if IN_CATCH.with(|c| c.get()) == 0 || std::env::var_os("KV_SHOW_PANICS").is_some() {
             default(info);
         }
     }));
+}
+
+/// ub_checks panics observed so far (drained)
+pub fn take_ub_check_panics() -> Vec<String> {
+    UB_CHECK_PANICS.lock().map(|mut g| std::mem::take(&mut *g)).unwrap_or_default()
 }
 
 /// Run `f`, mapping a panic to `Err(())`.
